@@ -34,7 +34,9 @@ THEOREMS = ['C12_expand_shorthand', 'C12_interpolates_evenly_spaced',
             'C12_cell_card_zero_iff',
             'C12_plain_card_zero_iff', 'C12_conv_keys_not_skipped',
             'C12_written_volumes', 'C12_generated_converted_iff',
+            'C12_lattice_elements_converted_iff_linked',
             'C12_imp_card_text', 'C12_void_card_text',
+            'C12_void_card_text_sep',
             'C12_nonvoid_card_text', 'C12_like_card_text',
             'C12_parse_deck_text_split']
 TRUSTED = [
